@@ -3,6 +3,7 @@ from common import hx
 import lexutil as L
 import fmtutil as F
 import gen_lua
+import implutil as U
 
 ASSUMPTIONS = ['programs are laid out one statement per line (the property\'s quantifier); depth = blocks and brackets open at the token, a closing '
                'token counting as closed, computed by the harness from the generator\'s structure independently of picotool',
@@ -141,6 +142,49 @@ def run(ctx, res):
         cases.append({'op': 'luafmt', 'width': w, 'source': hx(src)})
         if i == 1:
             res.sample({'source': repr(src[:160]), 'formatted': repr(out[:160]), 'width': w})
+    # the indent width option: the same options dict used for several runs, the cart writer (which runs the writer twice), and the CLI
+    import contextlib
+    import io
+    import os
+    from pico8 import tool
+    from pico8.game import file as gfile
+    from pico8.lua import lua as lua_mod
+    for i in range(ctx.budget(6, 60)):
+        src = gen_lua.layout(rng, gen_lua.LuaGen(rng).program(), 'lines', final_newline=True)
+        w = rng.choice([0, 1, 3, 4, 5, 8])
+        try:
+            want = F.luafmt(src, w)
+            g = U.make_game(code=src, version=8)
+        except Exception:
+            continue
+        res.evaluations += 1
+        res.count('width-option')
+        key = 'C10:width-option:%d:%s' % (w, hx(src)[:40])
+        inp = {'source': hx(src), 'indentwidth': w}
+        opts = {'indentwidth': w}
+        outs = [b''.join(g.lua.to_lines(writer_cls=lua_mod.LuaFormatterWriter, writer_args=opts)) for _ in range(3)]
+        if any(o != want for o in outs):
+            res.fail(key, 'formatting with the same options dict a second time gives a different result (width %d lost?)' % w, inp)
+            continue
+        p1 = os.path.join(ctx.tmp, 'w%d.p8' % i)
+        gfile.to_file(g, p1, lua_writer_cls=lua_mod.LuaFormatterWriter, lua_writer_args={'indentwidth': w})
+        got = b''.join(gfile.from_file(p1).lua.to_lines())
+        if got.rstrip(b'\n') != want.rstrip(b'\n'):
+            res.fail(key, 'a cart written with the formatter (indentwidth %d) does not contain the formatter\'s output for that width' % w, inp)
+            continue
+        p2 = os.path.join(ctx.tmp, 'wc%d.p8' % i)
+        gfile.to_file(g, p2)
+        with U.quiet(), contextlib.redirect_stdout(io.StringIO()), contextlib.redirect_stderr(io.StringIO()):
+            try:
+                tool.main(['-q', 'luafmt', '--indentwidth', str(w), p2])
+            except Exception as e:
+                res.fail(key, 'p8tool luafmt --indentwidth %d raised %r' % (w, e), inp)
+                continue
+        p2o = p2[:-3] + '_fmt.p8'
+        got = b''.join(gfile.from_file(p2o).lua.to_lines()) if os.path.exists(p2o) else None
+        want2 = F.luafmt(b''.join(gfile.from_file(p2).lua.to_lines()), w)
+        if got is None or got.rstrip(b'\n') != want2.rstrip(b'\n'):
+            res.fail(key, 'p8tool luafmt --indentwidth %d did not write the output of the formatter at that width' % w, inp)
     # the regex pipeline itself: model normRun vs the real _get_code_for_spaces on synthetic runs
     from pico8.lua import lua, lexer
     alpha = [b' ', b' ', b'\t', b'\n', b'\n', b'\r', b'--c', b'-- x ', b'//d', b'--[[b\n  c]]']
